@@ -5,7 +5,7 @@ from vf.plan import Plan
 def make(tier):
     P = Plan('C11', level='model_checking', design_ref='DESIGN.md section 5 C11')
     P.meta += ['every operation touches at most 4 ring nodes (itself, its neighbours, the list head), so a universe of 4 elements + 2 heads with ARBITRARY well-formed linkage (all alias patterns, orphan rings, self-linked nodes) covers every configuration an operation can distinguish; induction over the history then gives the membership property for histories of any length']
-    P.not_decided += ['fcppt::signal (connect / call / unregister through unique_ptr and std::function: heap + type erasure)']
+    P.not_decided += ['signals with more than three connections, histories of several calls / reconnects (bounded scenarios only); auto_connection_container', 'signal::unregister::base (unregister function run exactly once at connection death): did not close (8 GB / 8 min per concrete scenario)']
     u = P.unit('list', 'shim.cpp', harness=['harness.c'], inline=True)
     for h, what in (('h_elem_ctor', 'base(list&): appended at the end of that list; other lists and untouched nodes unchanged; ring invariant'),
                     ('h_elem_dtor', '~base: the element leaves its list, order of the others kept, no live node refers to it'),
@@ -17,4 +17,39 @@ def make(tier):
                     ('h_list_move_assign', 'list::operator=(list&&) from empty and non-empty sources, onto empty and non-empty targets: holds exactly the source members, source empty, old members in no list, ring invariant'),
                     ('h_list_walk', 'begin/end/++/--/empty enumerate exactly the members in link order')):
         u.lemma(h, cls='B', unwind=8, bound='universe of 4 elements and 2 list heads with arbitrary well-formed linkage (every alias pattern); one operation from every such state', backends=['sat', 'cvc5'], native=False, what=what, timeout=900)
+    # ---- fcppt::signal on top of the intrusive list (bounded scenarios: three connections)
+    hs = ('static unsigned c_cb; static u32 l_id[8], l_arg[8];\n'
+          'void vf_cb(u32 id, u32 a){ if (c_cb < 8) { l_id[c_cb] = id; l_arg[c_cb] = a; } ++c_cb; }\n'
+          '#define ALIVE_LOG(X) do { unsigned k = 0; for (unsigned id = 1; id <= 3; ++id) if (!((drop >> (id - 1)) & 1)) { __CPROVER_assert(k < c_cb && l_id[k] == id && l_arg[k] == (X), "every live connection is invoked, in connection order, with the argument"); ++k; } \\\n'
+          '  __CPROVER_assert(c_cb == k, "no callback of a destroyed connection (and nothing else) is invoked"); } while (0)\n'
+          'void h_sig_call(void){ VF_IN(u32, x); VF_IN(u32, drop); __CPROVER_assume(drop < 8); c_cb = 0; vf_sig_call(x, drop); ALIVE_LOG(x); VF_PROBE(); }\n'
+          'void h_sig_moved(void){ VF_IN(u32, x); VF_IN(u32, drop); __CPROVER_assume(drop < 8 && x < 1000); c_cb = 0; vf_sig_moved(x, drop); ALIVE_LOG(x); VF_PROBE(); }\n'
+          'void h_sig_dies_first(void){ VF_IN(u32, x); c_cb = 0; _Bool r = vf_sig_dies_first(x); __CPROVER_assert(r && c_cb == 1 && l_id[0] == 1 && l_arg[0] == x, "the callback ran once while the signal lived; destroying the connection after its signal is safe"); VF_PROBE(); }\n'
+          'void h_sig_empty(void){ VF_IN(u32, drop); __CPROVER_assume(drop < 2); c_cb = 0; _Bool r = vf_sig_empty(drop); __CPROVER_assert(r && c_cb == 0, "empty() holds exactly when no live connection is registered"); VF_PROBE(); }\n')
+    hs += ('u32 __CPROVER_uninterpreted_cbr(u32, u32); u32 __CPROVER_uninterpreted_comb(u32, u32);\n'
+           'u32 vf_cbr(u32 id, u32 a){ if (c_cb < 8) { l_id[c_cb] = id; l_arg[c_cb] = a; } ++c_cb; return __CPROVER_uninterpreted_cbr(id, a); }\n'
+           'u32 vf_comb(u32 s, u32 r){ return __CPROVER_uninterpreted_comb(s, r); }\n'
+           'static unsigned c_un; static u32 l_un[8];\nvoid vf_unreg(u32 id){ if (c_un < 8) l_un[c_un] = id; ++c_un; }\n'
+           'void h_sig_combine(void){ VF_IN(u32, x); VF_IN(u32, init); VF_IN(u32, drop); __CPROVER_assume(drop < 8); c_cb = 0; u32 r = vf_sig_combine(x, init, drop);\n'
+           '  u32 e = init; for (unsigned id = 1; id <= 3; ++id) if (!((drop >> (id - 1)) & 1)) e = __CPROVER_uninterpreted_comb(e, __CPROVER_uninterpreted_cbr(id, x));\n'
+           '  __CPROVER_assert(r == e, "the result is the left fold of the combiner over the results of the live callbacks, in connection order, starting from the initial value"); ALIVE_LOG(x); VF_PROBE(); }\n'
+           )
+    for K in range(4):   # one lemma per subset of dropped connections (a symbolic subset did not close in 10 min)
+        hs += ('void h_sig_unregister_%d(void){ VF_IN(u32, x); u32 drop = %d; c_cb = 0; c_un = 0; vf_sig_unregister(x, drop);\n' % (K, K) +
+               '  unsigned n1 = 0, n2 = 0, m1 = 9, m2 = 9, p1 = 9, p2 = 9; for (unsigned k = 0; k < 8; ++k) if (k < c_un) { if (l_un[k] == 1) { ++n1; p1 = k; } else if (l_un[k] == 2) { ++n2; p2 = k; } else if (m1 == 9) m1 = k; else m2 = k; }\n'
+               '  __CPROVER_assert(c_un == 4 && n1 == 1 && n2 == 1, "the unregister function of every connection runs exactly once");\n'
+               '  __CPROVER_assert(((drop & 1) ? p1 < m1 : p1 > m2) && ((drop & 2) ? p2 < m1 : p2 > m2), "it runs when the connection object is destroyed - never during a call of the signal");\n'
+               '  { unsigned k = 0; for (unsigned id = 1; id <= 2; ++id) if (!((drop >> (id - 1)) & 1)) { __CPROVER_assert(k < c_cb && l_id[k] == id && l_arg[k] == x, "live callbacks are invoked in order"); ++k; } __CPROVER_assert(c_cb == k, "only live callbacks are invoked"); }\n  VF_PROBE(); }\n')
+    P.generated['c11_sig_h.c'] = hs
+    SIG = (('sig', 'sig.cpp', (('h_sig_call', 'calling a signal invokes exactly the callbacks whose connection object is still alive, in connection order (all 8 subsets of 3 connections)'),
+                                ('h_sig_moved', 'a moved signal takes its connections along: the new signal invokes the live callbacks, the moved-from signal invokes none'),
+                                ('h_sig_dies_first', 'a connection that outlives its signal can be destroyed safely (no dangling link)'),
+                                ('h_sig_empty', 'signal::empty()'))),
+           ('sigc', 'sigc.cpp', (('h_sig_combine', 'signal with a combiner: the result folds the results of exactly the live callbacks, in connection order'),)),
+           ('sigu', 'sigu.cpp', tuple(('h_sig_unregister_%d' % K, 'unregister::base: the unregister function of a connection runs exactly once, when its connection object dies (dropped subset %d)' % K) for K in range(4))))
+    SIG = SIG[:2]   # unregister::base (sigu.cpp): 4 concrete-subset lemmas each exceeded 8 GB / 8 min without an answer - not registered, listed as not decided
+    for un, shim, lem in SIG:   # one translation unit per signal type: every further std::function signature enlarges the target sets of all indirect calls
+        us = P.unit(un, shim, harness=['c11_sig_h.c'], inline=True, maxb=32)
+        for h, what in lem:
+            us.lemma(h, cls='B', unwind=6, unwind_files={'c11_sig_h.c': 10}, mem=24, bound='one signal with at most three connections (unique_ptr + std::function on the heap)', backends=['sat'], cbmc=['--slice-formula', '--memory-leak-check'], what='signal: ' + what, timeout=1200)
     return P
